@@ -341,13 +341,32 @@ fn safe_unquoted(c: char) -> bool {
 }
 
 /// Renders a pattern as shell text: quoted characters get a backslash (or single quotes).
-fn render_pattern(p: &[PC], alt_quote: bool) -> Option<String> {
+/// `style`: how quoted characters are written - 0 backslash, 1 single quotes, 2 double quotes
+/// (runs of quoted characters share one pair; `$` `"` `\` and backquote are backslash-escaped
+/// inside, which must not leave a backslash to be matched)
+fn render_pattern(p: &[PC], style: u8) -> Option<String> {
     let mut s = String::new();
+    let mut in_dq = false;
     for x in p {
+        if x.lit && style == 2 {
+            if !in_dq {
+                s.push('"');
+                in_dq = true;
+            }
+            if matches!(x.c, '$' | '"' | '\\' | '`') {
+                s.push('\\');
+            }
+            s.push(x.c);
+            continue;
+        }
+        if in_dq {
+            s.push('"');
+            in_dq = false;
+        }
         if x.lit {
             if x.c == '\n' {
                 s.push_str("'\n'");
-            } else if alt_quote && x.c != '\'' {
+            } else if style == 1 && x.c != '\'' {
                 s.push('\'');
                 s.push(x.c);
                 s.push('\'');
@@ -361,6 +380,9 @@ fn render_pattern(p: &[PC], alt_quote: bool) -> Option<String> {
             return None;
         }
     }
+    if in_dq {
+        s.push('"');
+    }
     Some(s)
 }
 
@@ -372,7 +394,7 @@ fn check_shell_pat(c: &ShellPatCase) -> Outcome {
     let mut rendered = vec![];
     for (i, p) in c.pats.iter().enumerate() {
         // a pattern starting with an unquoted `!`/`^`... is fine; an empty pattern is rendered ''
-        match render_pattern(p, i % 2 == 1) {
+        match render_pattern(p, ((i + c.text.len()) % 3) as u8) {
             Some(r) if !r.is_empty() => rendered.push(r),
             Some(_) => rendered.push("''".to_string()),
             None => return Outcome::skip("pattern needs an unquoted character the shell grammar reserves"),
@@ -439,7 +461,7 @@ fn check_shell_pat(c: &ShellPatCase) -> Outcome {
             let s = if c.dq {
                 // inside double quotes the pattern's own quoting still applies, but single quotes are
                 // literal characters there: only backslash quoting is used (alt_quote off)
-                let r = match render_pattern(&c.pats[0], false) {
+                let r = match render_pattern(&c.pats[0], 0) {
                     Some(r) => guard(&r),
                     None => return Outcome::skip("unrenderable"),
                 };
